@@ -1225,6 +1225,9 @@ class Reaction(Object):
             If the metabolite key in the dictionary is a string, and there is no model
             for the reaction.
         """
+        # Work on a copy: the argument may be the stoichiometry of this very
+        # reaction or be changed by the caller before the context is left.
+        metabolites_to_add = dict(metabolites_to_add)
         old_coefficients = self.metabolites
         new_metabolites = []
         _id_to_metabolites = dict([(x.id, x) for x in self._metabolites])
